@@ -385,13 +385,93 @@ def pr_body_hook(I):
         return BodyIter()
     lst = I.st.read_field(self.t, 'G_body_list')
     I.assume(lst.lo <= lst.hi)
-    return lst
+    return body_items(I, self)
+
+
+class BodyItem(VModel):
+    """one element of a list body as an application may build it: None, a bytes object, or a str (which the server encodes when it
+    writes the response).  wire = its bytes on the wire; chars = what len() of the item gives (for str: the number of characters,
+    which is smaller than the number of bytes as soon as a non-ASCII character occurs)"""
+
+    def __init__(self, tag, wire, chars):
+        self.tag, self.wire, self.chars = tag, wire, chars      # tag: 0 None, 1 bytes, 2 str
+
+    def is_none(self, I):
+        return self.tag == 0
+
+    def isinstance_of(self, I, name):
+        return z3.And(self.tag == (1 if name in ('bytes', 'bytearray') else 2), z3.BoolVal(name in ('bytes', 'bytearray', 'str')))
+
+    def truthy(self, I):
+        return z3.And(self.tag != 0, self.chars > 0)
+
+    def getattr(self, I, name):
+        if name == 'encode':
+            return VFunc('str.encode', impl=lambda I2, b, a, k: VStr(self.wire, True))
+        raise Unsupported('attribute %s of a body item' % name)
+
+
+class _ItemKind(Kind):
+    def sorts(self):
+        return [z3.IntSort(), S(), z3.IntSort()]
+
+    def wrap(self, terms):
+        return BodyItem(*terms)
+
+    def unwrap(self, value, st=None):
+        return [value.tag, value.wire, value.chars]
+
+    def __repr__(self):
+        return 'BodyItem'
+
+
+ITEM = _ItemKind()
+
+
+def body_items(I, self):
+    """the list body seen item by item, linked to the wire view G_body_list used by the framing obligations"""
+    g = I.st.ghost
+    if 'BODY_ITEMS' not in g:
+        wires = I.st.read_field(self.t, 'G_body_list')
+        tags = core.fresh('item_tag', z3.ArraySort(z3.IntSort(), z3.IntSort()))
+        chars = core.fresh('item_len', z3.ArraySort(z3.IntSort(), z3.IntSort()))
+        i = core.fresh('bi', z3.IntSort())
+        w, t, c = z3.Select(wires.arrs[0], i), z3.Select(tags, i), z3.Select(chars, i)
+        I.assume(z3.ForAll([i], z3.And(0 <= t, t <= 2, z3.Implies(t == 0, w == z3.StringVal('')), z3.Implies(t == 1, c == z3.Length(w)),
+                                       z3.Implies(t == 2, z3.And(0 <= c, c <= z3.Length(w))))),
+                 'body items: None contributes no bytes; len(bytes) is the byte count; len(str) <= number of encoded bytes')
+        g['BODY_ITEMS'] = VList(ITEM, [tags, wires.arrs[0], chars], wires.lo, wires.hi)
+    return g['BODY_ITEMS']
+
+
+def s_len_item(I, recv, args, kw):
+    v = lib.unopt(I, args[0])
+    if isinstance(v, BodyItem):
+        return VInt(v.chars)
+    from pyvc.interp import BUILTINS
+    return BUILTINS['len'](I, args, kw)
 
 
 def s_sum_len(I, recv, args, kw):
     """sum(len(part) for part in body) = length of the concatenation of the parts (lemma: List.length_flatten, lemmas/Flat.lean)"""
     I.st.trusted_used.add('sum of the lengths of the body parts = length of their concatenation (Lean lemma Flat.length_flat)')
     self = I.local('self')
+    v = args[0]
+    from pyvc.interp import _LazyComp
+    if isinstance(v, _LazyComp) and isinstance(v.it, VList) and v.it.ek is ITEM:
+        # map-sum rule: the sum over the items is the byte length of the body iff, ITEM BY ITEM, the generator counts exactly the
+        # items that are not None and counts each of them with its number of bytes on the wire
+        i, guard, elt, _ = I.comp_symbolic(v.node, v.it)
+        it = v.it
+        inr = z3.And(it.lo <= i, i < it.hi)
+        tag, wire = z3.Select(it.arrs[0], i), z3.Select(it.arrs[1], i)
+        e = lib.unopt(I, elt)
+        I.oblige('content_length.counts_exactly_the_parts_that_are_written', z3.ForAll([i], z3.Implies(inr, guard == z3.And(inr, tag != 0))),
+                 detail='None items are skipped, every other item is counted')
+        I.oblige('content_length.counts_every_part_in_bytes_on_the_wire', z3.ForAll([i], z3.Implies(z3.And(inr, tag != 0), e.t == z3.Length(wire))),
+                 detail='a str item is written encoded: it must be counted by its encoded length, not by its number of characters')
+    else:
+        I.oblige('content_length.sum_is_taken_over_the_body_items', z3.BoolVal(False), detail='sum(%r)' % (v,))
     return VInt(z3.Length(lib.flat(I.st.read_field(self.t, 'G_body_list'))))
 
 
@@ -444,12 +524,18 @@ def pr_post(I, outcome, ctx):
     I.oblige('content_type_defaulted', z3.BoolVal('content-type' in hd))
 
 
+def pr_replay(model, ob):
+    if 'content_length' not in ob['name']:
+        return None
+    return "import sys\nfrom circuits.web import wrappers\nfrom circuits.web.headers import Headers\nclass S:\n    def getpeername(self): return ('127.0.0.1', 1)\n    def getsockname(self): return ('127.0.0.1', 2)\nbad = []\nfor body in (['grüß ', 'dich'], [b'abc', 'é', None, 'x'], 'äöü', b'raw', ['plain'], ['€'] * 3):\n    req = wrappers.Request(S(), 'GET', 'http', '/', (1, 1), '', headers=Headers([('Host', 'localhost:80')]))\n    res = wrappers.Response(req, 'utf-8')\n    res.body = body\n    res.prepare()\n    parts = body if isinstance(body, list) else [body]\n    want = sum(len(s.encode('utf-8')) if isinstance(s, str) else len(s) for s in parts if s is not None)\n    got = res.headers.get('Content-Length')\n    if got is None or int(got) != want:\n        bad.append('body %r: Content-Length %r, bytes written %d' % (body, got, want))\nfor b in bad: print(b)\nsys.exit(1 if bad else 0)\n"
+
+
 SPECS.append(FucSpec(
-    'C15', WRAP, 'Response.prepare', pr_setup, pr_post, fields=H_FIELDS,
-    calls={'sum': s_sum_len, 'str': lambda I, r, a, k: lib.to_str(I, a[0]), 'self.cookie.values': lambda I, r, a, k: VTuple([])},
+    'C15', WRAP, 'Response.prepare', pr_setup, pr_post, fields=H_FIELDS, replay=pr_replay,
+    calls={'sum': s_sum_len, 'len': s_len_item, 'str': lambda I, r, a, k: lib.to_str(I, a[0]), 'self.cookie.values': lambda I, r, a, k: VTuple([])},
     attr_hooks={'self.body': pr_body_hook, 'self.headers': lambda I: I.st.ghost['HDRS'], 'self.status': lambda I: VInt(I.fz(I.local('self'), '_status'))},
     cover=['return', 'sized', 'unsized'],
-    clause='prepare(): Content-Length = byte length of a sized body (never chunked); an unsized body is chunked (HTTP/1.1, not HEAD, '
+    clause='prepare(): Content-Length = byte length of a sized body, item by item (None skipped, str items by their encoded length) and never chunked; an unsized body is chunked (HTTP/1.1, not HEAD, '
            'server present) or else the connection is closed; bodyless statuses get neither; 413 closes; the Connection header '
            'agrees with the close decision'))
 
